@@ -2,6 +2,8 @@ pub mod c10;
 pub mod c12;
 pub mod c14;
 pub mod c15;
+pub mod c16;
+pub mod real;
 pub mod c18;
 pub mod generic;
 pub mod mt;
@@ -190,6 +192,11 @@ pub fn run(name: &str, args: &Args) -> Option<Report> {
         "c15" => c15::run(args.seed, args.start, args.iters, &mut rep),
         "c18" => c18::run(args.seed, args.start, args.iters, &mut rep),
         "c12" => c12::run(args.seed, args.start, args.iters, &mut rep, false),
+        "c16" => {
+            let every: u64 = args.param("real_every").and_then(|c| c.parse().ok()).unwrap_or(20);
+            let (seed, start, iters) = (args.seed, args.start, args.iters);
+            guarded(&mut rep, name, "C16", seed, start, |rep| c16::run(seed, start, iters, every, rep));
+        }
         "c10" => c10::run(args.seed, args.start, args.iters, &mut rep),
         "c08wrap" => {
             for i in args.start..args.start + args.iters {
